@@ -120,9 +120,9 @@ def parseOp (ws : List String) : Option Op :=
   | "arrive" :: c :: rest =>
       let plan := planOf (parseKv rest)
       some (.arrive (c.toNat?.getD 0) (plan.headD { lat := 0, out := .ok }))
-  | ["poll", c] => some (.poll (c.toNat?.getD 0))
-  | ["drop", c] => some (.drop (c.toNat?.getD 0))
-  | ["adv", ms] => some (.adv (ms.toNat?.getD 0))
+  | "poll" :: c :: _ => some (.poll (c.toNat?.getD 0))
+  | "drop" :: c :: _ => some (.drop (c.toNat?.getD 0))
+  | "adv" :: ms :: _ => some (.adv (ms.toNat?.getD 0))
   | _ => none
 
 def machine : Machine where
